@@ -113,6 +113,7 @@ CLAIM = {
     "design_ref": "DESIGN.md section 4 C01",
     "technique": "static: abstract interpretation of the prover into symbolic terms; normal-form comparison with reference formulas; twin-summary agreement",
     "text": "For all circuit sizes (symbolic n1, n2, pad, m) and all field values, the prover's outputs are the reference protocol's: no slip in the "
-    "second-phase-only path, padding tail, factor vectors or a power of x can hide in an untested shape. Prover/verifier agreement on weights, padding and sizes is decided on the twins.",
+    "second-phase-only path, padding tail, factor vectors or a power of x can hide in an untested shape. Prover/verifier agreement on weights, padding and sizes is decided on the twins. The witness computation of `multiply` "
+    "(Prover::eval, C15 R15.2 by reference) is included.",
     "note": "trusted: completeness theorem of the reference protocol; arkworks algebra",
 }
